@@ -21,8 +21,8 @@ From Coq Require Import List NArith Bool PeanoNat Sorted.
 Import ListNotations.
 From RX Require Import Generated.
 From RX.Model Require Import Base CharClass Stream Tokenizer Doc Builder Parse Api.
-From RX.Proofs Require Import LexerProofs NoPanicTokenizer RangeTokenizer RangeArena RangeInv RangeBuilder RangeParse RangeAttrLocal RangeAttrTok RangeAttrParse RangeShiftBase RangeShiftStream RangeShiftTokenizer RangeShiftBuilder RangeShiftParse RangeShiftFinal CstRangeDefs CstRangeMain CstRangeTDefs CstRangeTMain.
-From RX.Spec Require Cst CstText.
+From RX.Proofs Require Import LexerProofs NoPanicTokenizer RangeTokenizer RangeArena RangeInv RangeBuilder RangeParse RangeAttrLocal RangeAttrTok RangeAttrParse RangeShiftBase RangeShiftStream RangeShiftTokenizer RangeShiftBuilder RangeShiftParse RangeShiftFinal CstRangeDefs CstRangeMain CstRangeTDefs CstRangeTMain CstEntDoc CstRangeEDefs CstRangeEMain CstRangeEValid.
+From RX.Spec Require Cst CstText CstEnt.
 Open Scope N_scope.
 
 (* ---- Proofs/RangeParse.v ---- *)
@@ -138,8 +138,49 @@ Print Assumptions C13_parse_render_attr_ranges_t.
 
 End G4.
 
-(* ---- Proofs/RangeTokenizer.v ---- *)
+(* ---- Proofs/CstRangeEMain.v ---- *)
 Module G5.
+Module E := CstEnt.
+Theorem C13_parse_render_ranges_e :
+  forall (c : E.doc) (opt : options) d,
+  E.wf_doc c = true ->
+  etext_only c = true ->                                       (* PARTIAL: every declared entity is character data *)
+  allow_dtd opt = true ->
+  N.of_nat (length (E.sem c)) < nodes_limit opt ->            (* room for all nodes + the Root *)
+  N.of_nat (length (E.render c)) <= u32_max ->                 (* the input is at most u32::MAX bytes long *)
+  parse (E.render c) opt = Ok d ->
+  (* every node below the Root, in document order: the span of the construct it was read from -- in
+     the body, or inside the literal of an entity declaration in the DOCTYPE *)
+  map nd_range (tl (d_nodes d)) = espans c /\
+  (exists root, nth_N (d_nodes d) 0 = Some root /\ nd_range root = (0, N.of_nat (length (E.render c)))).
+Proof. exact parse_render_ranges_e. Qed.
+Print Assumptions C13_parse_render_ranges_e.
+
+End G5.
+
+(* ---- Proofs/CstRangeEValid.v ---- *)
+Module G6.
+Module E := CstEnt.
+Theorem C13_ranges_valid_e :
+  forall (c : E.doc) (opt : options) d,
+  E.wf_doc c = true ->
+  etext_only c = true ->                                       (* PARTIAL: every declared entity is character data *)
+  allow_dtd opt = true ->
+  N.of_nat (length (E.sem c)) < nodes_limit opt ->
+  N.of_nat (length (E.render c)) <= u32_max ->
+  parse (E.render c) opt = Ok d ->
+  (* every node range -- of a node of the body or of a node that comes from an entity -- is ordered,
+     inside the input and on character boundaries; every Borrowed text is a slice inside the input *)
+  (forall nd, In nd (d_nodes d) -> RangeInv.valid_range (E.render c) (nd_range nd)) /\
+  (forall nd s, In nd (d_nodes d) -> nd_kind nd = KText (Borrowed (SIn s)) ->
+     sl_start s <= sl_end s /\ sl_end s <= tlen (E.render c)).
+Proof. exact ranges_valid_e. Qed.
+Print Assumptions C13_ranges_valid_e.
+
+End G6.
+
+(* ---- Proofs/RangeTokenizer.v ---- *)
+Module G7.
 Local Notation token := Tokenizer.token.
 Theorem C13_tokenizer_token_ranges :
   forall text (C : Type) (ev : token -> C -> res C)
@@ -151,10 +192,10 @@ Theorem C13_tokenizer_token_ranges :
 Proof. exact tokenizer_token_ranges. Qed.
 Print Assumptions C13_tokenizer_token_ranges.
 
-End G5.
+End G7.
 
 (* ---- Proofs/LexerProofs.v ---- *)
-Module G6.
+Module G8.
 Local Notation token := Tokenizer.token.
 Theorem C13_parse_comment_post :
   forall (text : bytes), forall s acc s' acc', SInv text s ->
@@ -225,7 +266,7 @@ Theorem C13_parse_close_element_post :
 Proof. exact parse_close_element_post. Qed.
 Print Assumptions C13_parse_close_element_post.
 
-End G6.
+End G8.
 
 
 (* the slice shapes of C13, for every node of every parsed rendering of the Cst fragment *)
